@@ -780,7 +780,7 @@ class Machine(object):
 
     def lookup_var(self, ref, tu):
         did = ref.get("id")
-        for fr in (self.frames[-1],):
+        for fr in self.frames[-1:]:
             if did in fr:
                 return fr[did]
         kind = ref.get("kind")
